@@ -13,6 +13,12 @@ package capnp
 //@ func nearTo(w rawPointer, paddr address, target address, raw rawPointer) bool {
 //@ 	return sKind(w) == sKind(raw) && w>>32 == raw>>32 && M(paddr)+8+8*M(sOff(w)) == M(target)
 //@ }
+//@ func segLen(p Ptr) int {
+//@ 	if p.seg == nil {
+//@ 		return 0
+//@ 	}
+//@ 	return len(p.seg.data)
+//@ }
 //@ end
 
 //@ func Segment.writePtr -> err
@@ -20,6 +26,14 @@ package capnp
 //@   partial
 //@   requires segOK(s) && M(off)+8 <= M(len(s.data)) && wfPtr(src)
 //@   modifies *
+//@   old src0 Ptr = src
+//@   old len0 int = segLen(src)
+//@   -- C16 "independent": when a copy is demanded (forceCopy: every pointer field copied by
+//@   -- copyStruct), the object the new pointer designates is not the source object - it starts at
+//@   -- or above the old end of its segment, or lies in another segment (an object that starts at the
+//@   -- very end of its segment occupies no storage)
+//@   assert before "srcAddr = st.off" structindep: implies(forceCopy, st.seg != src0.seg || st.off != src0.off)
+//@   assert before "srcAddr = l.off" listindep: implies(forceCopy && M(src0.off) < M(len0), l.seg != src0.seg || l.off != src0.off)
 //@   -- (the assertions are about word-aligned slots and objects - true of everything read from or
 //@   -- allocated in a message; the struct views of primitive list elements are copied first)
 //@   -- near pointer: same segment; the word now stored in the slot resolves to the object
